@@ -36,6 +36,21 @@ pub struct StLine {
     /// row replication factors that land on tabulated degrees of freedom (VPStats!ReplLaw)
     #[serde(default)]
     pub repl: Vec<ReplJ>,
+    /// a probability 1 - k 2^-e very close to one and its quantile v 10^-d
+    #[serde(default)]
+    pub pfine: Option<PFineJ>,
+    #[serde(default)]
+    pub tqfine: Option<TqFineJ>,
+}
+#[derive(Deserialize, Debug, Clone)]
+pub struct PFineJ {
+    pub k: i64,
+    pub e: i32,
+}
+#[derive(Deserialize, Debug, Clone)]
+pub struct TqFineJ {
+    pub v: i64,
+    pub d: i32,
 }
 #[derive(Deserialize, Debug, Clone)]
 pub struct ReplJ {
@@ -178,7 +193,15 @@ fn judge_stationary_scaled<T: Sc>(idx: usize, l: &StLine, kexp: i32, wexp: i32, 
         kinds.push(MKind::Poly);
         kinds.push(MKind::PolyBuilt);
     }
-    let ps: Vec<f64> = l.pnum.iter().map(|&v| v as f64 / 1000.0).collect();
+    let mut ps: Vec<f64> = l.pnum.iter().map(|&v| v as f64 / 1000.0).collect();
+    // the probability next to one (only where its quantile is tabulated: the unreplicated instance)
+    let mut t_fine: Option<f64> = None;
+    if let (None, Some(pf), Some(tf)) = (repl, l.pfine.as_ref(), l.tqfine.as_ref()) {
+        if tf.v > 0 {
+            ps.push(1.0 - pf.k as f64 * (2.0f64).powi(-pf.e));
+            t_fine = Some(tf.v as f64 * (10.0f64).powi(-tf.d));
+        }
+    }
     let nu = repl.map(|r| r.nu).unwrap_or(l.nu) as f64;
     let deth = l.deth as f64;
     // |rw|^2 scales with both factors; det and adj scale with the weights but their ratio
@@ -309,7 +332,7 @@ fn judge_stationary_scaled<T: Sc>(idx: usize, l: &StLine, kexp: i32, wexp: i32, 
         // C14: band radius
         let mut prev: Option<Vec<f64>> = None;
         for (pi, (pv, band)) in st.bands.iter().enumerate() {
-            let t = tq[pi] as f64 / 1e6;
+            let t = if pi < tq.len() { tq[pi] as f64 / 1e6 } else { t_fine.expect("quantile of the fine probability") };
             let mut worst = 0.0f64;
             let mut ok = band.len() == n;
             if ok {
@@ -369,10 +392,78 @@ fn judge_under<T: Sc>(idx: usize, l: &SuLine, rep: &mut Report) {
     }
 }
 
+/// C12 (and the statistics derived from sigma): fits whose final residuals are EXACTLY zero in every
+/// component while H^T H is invertible.  The weighted basis matrices are chosen so that the
+/// decomposition is exact (orthogonal unit columns, or a constant column over 4 or 9 samples); reduced
+/// chi2 = 0 / (N-M-P) = 0, standard error 0, covariance 0, band radius 0 - all finite.
+fn zero_residual_probes<T: Sc>(rep: &mut Report) {
+    struct Probe {
+        name: &'static str,
+        phi: Vec<Vec<i64>>,
+        dphi: Vec<Vec<i64>>,
+        c: Vec<i64>,
+    }
+    let probes = vec![
+        Probe { name: "constant over 4 samples", phi: vec![vec![1]; 4], dphi: vec![vec![0], vec![1], vec![2], vec![3]], c: vec![3] },
+        Probe { name: "constant over 9 samples", phi: vec![vec![1]; 9], dphi: (0..9).map(|i| vec![(i * i) % 5]).collect(), c: vec![-2] },
+        Probe {
+            name: "two unit columns, 5 samples",
+            phi: vec![vec![1, 0], vec![0, 1], vec![0, 0], vec![0, 0], vec![0, 0]],
+            dphi: vec![vec![0, 0], vec![0, 0], vec![1, 0], vec![0, 1], vec![1, 1]],
+            c: vec![5, 7],
+        },
+    ];
+    for pr in probes.iter() {
+        let n = pr.phi.len();
+        let m = pr.c.len();
+        let fam = FamJ { name: "TAB".into(), m, p: 1, seed: 0 };
+        let table = table_of::<T>(&fam, &[0], &pr.phi, &[pr.dphi.clone()], n);
+        let xs: Vec<T> = (0..n).map(|i| T::of64(i as f64)).collect();
+        let yv: Vec<f64> = (0..n).map(|i| (0..m).map(|j| (pr.phi[i][j] * pr.c[j]) as f64).sum()).collect();
+        for (wi, w) in [None, Some(vec![T::of64(2.0); n]), Some((0..n).map(|i| T::of64(if i % 2 == 0 { 1.0 } else { 4.0 })).collect::<Vec<T>>())].into_iter().enumerate() {
+            for par in [false, true] {
+                let y = DMatrix::from_fn(n, 1, |i, _| T::of64(yv[i]));
+                let flav = format!("exact zero residuals: {} weights#{} {} par={}", pr.name, wi, T::NAME, par);
+                let det = |what: &str| json!({"flavour": flav, "what": what});
+                let Ok(prob) = make::<T>(MKind::Table, &fam, &table, &xs, &[0], &y, w.as_deref(), par) else {
+                    rep.tool_error(format!("cannot build {flav}"));
+                    continue;
+                };
+                let out = match catch_unwind(AssertUnwindSafe(|| prob.fit_stats(&stat_cfg::<T>(), &[0.5, 0.95], &[]))) {
+                    Err(_) => {
+                        rep.violation("C12", det("fit_with_statistics panicked"));
+                        continue;
+                    }
+                    Ok(o) => o.expect("single rhs"),
+                };
+                let fr = out.fit.fin.residuals.clone().unwrap_or_default();
+                if fr.is_empty() || fr.iter().any(|v| v.to64() != 0.0) {
+                    rep.count("zero_residual_probe_not_exact", 1);
+                    continue; // the decomposition was not exact here: no statement
+                }
+                rep.count("zero_residual_probes", 1);
+                let Some(st) = out.stats else {
+                    rep.violation("C12", det("fit_with_statistics returned Err although N > M+P, the fit succeeded (residuals exactly zero) and H^T H is invertible"));
+                    continue;
+                };
+                rep.check("C12", st.wres.iter().all(|v| v.to64() == 0.0), 0.0, || det("weighted_residuals are not the (zero) final residuals"));
+                rep.check("C12", st.chi2.to64() == 0.0, 0.0, || det(&format!("reduced_chi2 is {} for residuals that are exactly zero", st.chi2.to64())));
+                rep.check("C12", st.rse.to64() == 0.0, 0.0, || det(&format!("regression_standard_error is {} for residuals that are exactly zero", st.rse.to64())));
+                rep.check("C13", st.cov.iter().all(|v| v.to64() == 0.0), 0.0, || det("covariance is not sigma^2 (H^T H)^-1 = 0"));
+                for (pv, band) in st.bands.iter() {
+                    rep.check("C14", band.len() == n && band.iter().all(|v| v.to64() == 0.0), 0.0, || det(&format!("band radius at p={pv} is not t * sqrt(j^T Cov j) = 0")));
+                }
+            }
+        }
+    }
+}
+
 pub fn run(path: &str) -> Report {
     let st = crate::export::read_tagged(path, "VPST");
     let su = crate::export::read_tagged(path, "VPSU");
     let mut total = Report::new();
+    zero_residual_probes::<f64>(&mut total);
+    zero_residual_probes::<f32>(&mut total);
     let reps: Vec<Report> = st
         .par_iter()
         .enumerate()
